@@ -15,7 +15,8 @@ From Coq Require Import ZArith List Bool Arith.
 From GoCoap Require Import Base.Interleave Observe.Model Token.Model Token.Spec Token.Proofs
   Token.BwModel Token.BwSpec Token.BwProofs Token.WriterModel Token.WriterProofs
   Token.DedupModel Token.DedupSpec Token.DedupProofs
-  Token.ReasmModel Token.ReasmProofs Token.RecycleModel Token.RecycleProofs.
+  Token.ReasmModel Token.ReasmProofs Token.RecycleModel Token.RecycleProofs
+  Token.SourceModel Token.SourceSpec Token.SourceProofs.
 Import ListNotations.
 Local Open Scope nat_scope.
 
@@ -503,3 +504,85 @@ Example C03_reasm_hypotheses_satisfiable :
   snd (rrun load_valid rempty (stale_evs ++ [REnd 1 7%Z; RSweep; RStart 2 7%Z; RBlock 7%Z (mkBlk 2 0 false)])) =
     [OAsk 7%Z 1; OAsk 7%Z 1; OAsk 7%Z 2; ODeliver 7%Z [1; 1; 1]; ODeliver 7%Z [2]].
 Proof. split; [cbn; repeat split; intros; try congruence; auto|vm_compute; reflexivity]. Qed.
+
+(* ---- round 5: the library's token source (message.GetToken, Token/SourceModel.v). [ent] = the bytes the system's
+   source of randomness delivers, in order. As long as they last, the k-th call returns exactly the k-th 8-byte piece
+   and reads exactly 8 bytes: every request gets random bytes of its own ---- *)
+Theorem C03_source_tokens_are_pieces : forall n ent, tok_len * n <= length ent ->
+  tokens n ent = map (fun k => (piece k ent, tok_len)) (seq 0 n).
+Proof. exact tokens_are_pieces. Qed.
+Print Assumptions C03_source_tokens_are_pieces.
+
+(* the tokens, one after the other, are the first 8n random bytes: no byte is used for two tokens, none is skipped *)
+Theorem C03_source_uses_every_byte_once : forall n ent, tok_len * n <= length ent ->
+  concat (map fst (tokens n ent)) = firstn (tok_len * n) ent.
+Proof. exact tokens_use_every_byte_once. Qed.
+Print Assumptions C03_source_uses_every_byte_once.
+
+(* hence, for any number of requests: different random bytes, different tokens (the premise "distinct tokens" of
+   the property, for requests whose token the library chooses) *)
+Theorem C03_source_tokens_distinct : forall n ent, tok_len * n <= length ent ->
+  fresh_pieces n ent -> NoDup (map fst (tokens n ent)).
+Proof. exact tokens_distinct. Qed.
+Print Assumptions C03_source_tokens_distinct.
+
+(* distinct tokens and a peer that answers requests with their tokens (any order, delay, duplication) give the
+   [honest] of C03_own_content *)
+Theorem C03_honest_of_faithful : forall progs,
+  NoDup (map snd (calls progs)) -> faithful progs -> honest progs.
+Proof. exact honest_of_faithful. Qed.
+Print Assumptions C03_honest_of_faithful.
+
+(* a connection whose requests all carry library-chosen tokens, ALL programs (any number of callers, calls given up,
+   late and duplicated responses) and ALL schedules: a successful call returns its own token and the content the
+   peer produced for it -- nothing is asked of the callers *)
+Theorem C03_library_tokens_own_content : forall hash progs sched ent,
+  tok_len * length (calls progs) <= length ent ->
+  fresh_pieces (length (calls progs)) ent ->
+  library_chosen progs ent ->
+  hash_inj_on hash (all_toks progs) -> faithful progs ->
+  forall t n cid tok m r,
+    In (ERes t n (Call cid tok m) (ROk r)) (hist (run hash progs sched)) -> r_tok r = tok /\ r_for r = cid.
+Proof. exact library_tokens_own_content. Qed.
+Print Assumptions C03_library_tokens_own_content.
+
+(* tokens cut from a block of 4096 random bytes whose offset is wrapped before the 'block used up' test (one read of
+   4096 bytes, then none): although all 1024 pieces of the random bytes differ, call 512 returns the token of call 0
+   (class 13; the source of the code on the same bytes: class 0), and on the token-table machine, with a faithful
+   peer, the response produced for request 0 -- which gave up -- is returned by the request made 512 tokens later *)
+Theorem C03_source_block_repeats_refuted :
+  fresh_pieces 1024 blk_ent /\ length blk_ent = 8 * 1024 /\ length blk_obs = 513 /\
+  map snd blk_obs = 4096 :: repeat 0 512 /\
+  blk_tok 512 = blk_tok 0 /\
+  tk_class blk_ent blk_obs = 13%N /\
+  tk_class blk_ent (tokens 513 blk_ent) = 0%N /\
+  faithful blk_progs /\
+  In (ERes 1 0 (Call 1 (blk_tok 512) MWait) (ROk (mkR 0 (blk_tok 0) 0))) (hist (run crc64 blk_progs blk_sched)).
+Proof. exact block_source_repeats. Qed.
+Print Assumptions C03_source_block_repeats_refuted.
+
+(* the hypotheses of C03_library_tokens_own_content are satisfiable by a non-trivial instance: three requests with
+   the tokens the source makes of 24 random bytes, one given up, its response late, one answered twice *)
+Definition lib_ent : list Z := ent_gen 5%Z 3.
+Definition lib_tok (k : nat) : list Z := piece k lib_ent.
+Definition lib_progs : list (list op) :=
+  [[Call 0 (lib_tok 0) MCancel; Call 1 (lib_tok 1) MWait]; [Call 2 (lib_tok 2) MWait];
+   [Deliver true (mkR 0 (lib_tok 2) 2); Deliver true (mkR 1 (lib_tok 0) 0); Deliver true (mkR 2 (lib_tok 1) 1);
+    Deliver true (mkR 3 (lib_tok 2) 2)]].
+Example C03_library_tokens_hypotheses_satisfiable :
+  tok_len * length (calls lib_progs) <= length lib_ent /\
+  fresh_pieces (length (calls lib_progs)) lib_ent /\
+  library_chosen lib_progs lib_ent /\
+  hash_inj_on crc64 (all_toks lib_progs) /\ faithful lib_progs.
+Proof.
+  split; [vm_compute; repeat constructor|].
+  split; [apply nodup_b_NoDup; vm_compute; reflexivity|].
+  split; [vm_compute; reflexivity|].
+  split.
+  - intros a b Ha Hb. vm_compute in Ha, Hb.
+    repeat (destruct Ha as [Ha|Ha]; [subst a|]); try destruct Ha;
+      repeat (destruct Hb as [Hb|Hb]; [subst b|]); try destruct Hb;
+      vm_compute; intros E; try reflexivity; discriminate E.
+  - intros del r H. vm_compute in H.
+    repeat (destruct H as [H|H]; [try discriminate H; try (inversion H; subst; vm_compute; tauto)|]). destruct H.
+Qed.
